@@ -73,7 +73,29 @@ Definition not_percent (c : N) : bool := negb (c =? 37).
 
 (* one turn of  while (!tok.atEnd()):
      tok.prefix(token, unencodedChars) -> append          (maximal run of non-'%')
-     tok.skip('%') -> two tok.int64(hexN, 16, false, 1) -> append (hex1 << 4) | hex2, else nullopt *)
+     tok.skip('%') -> two tok.int64(hexN, 16, false, 1) -> append (hex1 << 4) | hex2, else nullopt
+   SNext out next: `out` was appended, `next` is what the tokenizer still holds *)
+Inductive dstep := SNext (out next : bytes) | SBad.
+
+Definition uri_decode_turn (buf : bytes) : dstep :=
+  let '(tok, rest) := span not_percent buf in
+  match rest with
+  | [] => SNext tok []
+  | p :: r =>
+    if p =? 37 then                                      (* tok.skip('%') *)
+      match tok_int64 16 false 1 r with
+      | Some (h1, n1) =>
+        let r1 := dropN n1 r in
+        match tok_int64 16 false 1 r1 with
+        | Some (h2, n2) =>
+          SNext (tok ++ [Z.to_N ((Z.lor (Z.shiftl h1 4) h2) mod 256)]) (dropN n2 r1)
+        | None => SBad
+        end
+      | None => SBad
+      end
+    else SNext tok rest                                  (* unreachable: the run stops only at '%' *)
+  end.
+
 Fixpoint uri_decode_loop (fuel : nat) (buf : bytes) : dres :=
   match fuel with
   | O => DFuel
@@ -81,31 +103,13 @@ Fixpoint uri_decode_loop (fuel : nat) (buf : bytes) : dres :=
     match buf with
     | [] => DOk []
     | _ =>
-      let '(tok, rest) := span not_percent buf in
-      let continue_ :=                                   (* nothing to skip: next turn (atEnd ends it) *)
-        match uri_decode_loop f rest with
-        | DOk o => DOk (tok ++ o)
+      match uri_decode_turn buf with
+      | SBad => DBad
+      | SNext out next =>
+        match uri_decode_loop f next with
+        | DOk o => DOk (out ++ o)
         | e => e
-        end in
-      match rest with
-      | [] => continue_
-      | p :: r =>
-        if p =? 37 then                                  (* tok.skip('%') *)
-          match tok_int64 16 false 1 r with
-          | Some (h1, n1) =>
-            let r1 := dropN n1 r in
-            match tok_int64 16 false 1 r1 with
-            | Some (h2, n2) =>
-              let ch := Z.to_N ((Z.lor (Z.shiftl h1 4) h2) mod 256) in
-              match uri_decode_loop f (dropN n2 r1) with
-              | DOk o => DOk (tok ++ ch :: o)
-              | e => e
-              end
-            | None => DBad
-            end
-          | None => DBad
-          end
-        else continue_
+        end
       end
     end
   end.
